@@ -13,7 +13,7 @@
  *   A pool       parsec_context_add_taskpool (+ insertion of the tasks for a DTD pool)
  *   W pool       parsec_taskpool_wait         T pool n   n x parsec_taskpool_test      Q n   n x parsec_context_test
  *   Z
- * Log: per history "R hid", events "V seq type pool idx" (type 1 body in, 2 body out, 3 completion callback,
+ * Log: per history "R hid", events "V seq type pool idx" (type 1 body in, 2 body out, 3 completion callback entered, 8 callback returned,
  * 4 add call, 5 add returned, 6 api call, 7 api returned with idx = 1 start 2 taskpool_wait 3 context_wait 4 taskpool_test
  * 5 context_test, pool = pool or return value for tests), "Z hid".  Watchdog as in dtd_driver (exit 3 / 4).
  */
@@ -109,7 +109,9 @@ static int completion_cb(parsec_taskpool_t *tp, void *data)
     int p = (int)(intptr_t)data;
     (void)tp;
     ev(3, p, 0);
+    spin(g_pool[p].spin * 40);            /* a long callback widens the window "marked done before the callback finished" */
     if (g_pool[p].cbadd >= 0 && g_pool[p].kind == 0) add_pool(g_pool[p].cbadd);
+    ev(8, p, 0);
     return 0;
 }
 
